@@ -3,8 +3,11 @@
    sqlfluff.core.parser.markers:  PositionMarker.source_position, PositionMarker.to_source_dict
    sqlfluff.core.errors:          SQLBaseError.__init__, SQLBaseError.to_dict, SQLLintError.to_dict, SQLParseError.to_dict
    sqlfluff.core.rules.fix:       LintFix.to_dict
+   sqlfluff.cli.commands:         lint#github-annotation  (region contract: the `--format github-annotation` branch)
 The offset -> (line, col) conversion itself is C31 (`pos`); here every *reporting* function is shown to report
 exactly pos(source, offset) for the offset it names, and offsets/line/col to agree with each other.
+Bounded / dynamic (labelled, contracts/c23_bounded.py): the real `lint` command per --format (json, yaml, github-annotation,
+github-annotation-native, sarif) over generated files: every emitted position == the record's, inside the file, offsets agree.
 """
 from pyvc.dsl import contract, external, spec, lemma, implies, inline, ref_class, rec_class
 from pyvc.ty import INT, BOOL, Text, StrA, TList, TTuple, TOpt, TRec, SLICE
@@ -267,9 +270,18 @@ class parseerror_to_dict:
 
 
 TRUSTED = ["SQLBaseError.desc / rule_code / LintFix.is_just_source_edit: assumed effect-free (havocked results)",
-           "LintFix.to_dict is a deterministic function of the fix while SQLLintError.to_dict runs (no heap writes there)"]
+           "LintFix.to_dict is a deterministic function of the fix while SQLLintError.to_dict runs (no heap writes there)",
+           "region contract lint#github-annotation: `result` is the LintingResult of the run and `annotation_level` a text; "
+           "LintingResult.as_records() returns dict records {filepath, violations: [dict]} whose violations always carry "
+           "start_line_no/start_line_pos (ints) and MAY carry end_line_no/end_line_pos (assumed shape; the position content "
+           "of those dicts is what the to_dict contracts establish); json.dumps serialises faithfully"]
 NOT_COVERED = ["that token source slices are in bounds (premise in_src) comes from C01/C02; TMP errors carrying a line number "
-               "from jinja2 are external; CLI formatting of (line, col) is string formatting of these values"]
+               "from jinja2 are external (the bounded CLI check below does look at them)",
+               "`lint` --format github-annotation-native (positions rendered into f-strings: pyvc drops f-string text) and "
+               "--format sarif (nested dict literals mutated through aliases: structural dicts are values in pyvc): NOT proved, "
+               "bounded dynamic check `cli-output-formats` only; json / yaml are json.dumps / yaml.dump of as_records() "
+               "(library serialisers trusted; compared end to end by the same bounded check)",
+               "human-readable output (OutputStreamFormatter.format_violation) is string formatting of line_no / line_pos"]
 MUTANTS = [
     ("dict_end_uses_start", "sqlfluff/core/templaters/base.py", "stop = self.get_line_pos_of_char_pos(source_slice.stop, source=True)", "stop = self.get_line_pos_of_char_pos(source_slice.start, source=True)"),
     ("dict_templated_space", "sqlfluff/core/templaters/base.py", "start = self.get_line_pos_of_char_pos(source_slice.start, source=True)", "start = self.get_line_pos_of_char_pos(source_slice.start, source=False)"),
@@ -277,6 +289,12 @@ MUTANTS = [
     ("error_swaps_line_pos", "sqlfluff/core/errors.py", "            self.line_no, self.line_pos = pos.source_position()", "            self.line_pos, self.line_no = pos.source_position()"),
     ("hoist_wrong_key", "sqlfluff/core/errors.py", '                    _base_dict[key] = _fix[key]', '                    _base_dict[key] = _fix["start_file_pos"] if key == "end_file_pos" else _fix[key]'),
     ("fix_create_after_mixed", "sqlfluff/core/rules/fix.py", '            _src_loc["start_line_pos"] = _src_loc["end_line_pos"]', '            _src_loc["start_line_pos"] = _src_loc["start_line_pos"]'),
+    ("gh_annotation_end_line_is_start", "sqlfluff/cli/commands.py", '                        "end_line": violation.get(\n                            "end_line_no", violation["start_line_no"]\n                        ),', '                        "end_line": violation["start_line_no"],'),
+    ("gh_annotation_columns_swapped", "sqlfluff/cli/commands.py", '                        "start_column": violation["start_line_pos"],\n                        # NOTE: There should', '                        "start_column": violation["start_line_no"],\n                        # NOTE: There should'),
+    ("gh_annotation_skips_first", "sqlfluff/cli/commands.py", '            filepath = record["filepath"]\n            for violation in record["violations"]:\n                # NOTE: The output format is designed for this GitHub action:', '            filepath = record["filepath"]\n            for violation in record["violations"][1:]:\n                # NOTE: The output format is designed for this GitHub action:'),
+    ("gh_native_endline_from_start", "sqlfluff/cli/commands.py", """line += f",endLine={violation['end_line_no']}\"""", """line += f",endLine={violation['start_line_no']}\""""),
+    ("sarif_endcolumn_from_start", "sqlfluff/cli/commands.py", 'region["endColumn"] = violation["end_line_pos"]', 'region["endColumn"] = violation["start_line_pos"]'),
+    ("sarif_end_dropped_alias", "sqlfluff/cli/commands.py", '                    region["endLine"] = violation["end_line_no"]', '                    region = dict(region)\n                    region["endLine"] = violation["end_line_no"]'),
     ("fix_create_before_filepos", "sqlfluff/core/rules/fix.py", '            _src_loc["end_file_pos"] = _src_loc["start_file_pos"]', '            _src_loc["end_file_pos"] = _src_loc["end_file_pos"]'),
 ]
 
@@ -325,11 +343,9 @@ class json_dumps:
 
 
 @spec(recursive=True)
-def flat(recs: TList(FileRec), k: INT, j: INT) -> TList(TTuple(Text, ViolationRec)):
-    """the violation records of the first k files followed by the first j violations of file k, each paired with the
-    path of its file, in reporting order"""
-    return (flat(recs, k, j - 1) + [(recs[k]["filepath"], recs[k]["violations"][j - 1])] if j > 0
-            else ([] if k <= 0 else flat(recs, k - 1, len(recs[k - 1]["violations"]))))
+def nviol(recs: TList(FileRec), k: INT) -> INT:
+    """number of violation records in the first k file records"""
+    return 0 if k <= 0 else nviol(recs, k - 1) + len(recs[k - 1]["violations"])
 
 
 @spec
@@ -352,18 +368,34 @@ class lint_github_annotation:
     ghost_out = {"github_result": TList(GithubAnnotation), "lint_result": ("result", LintingResult)}
 
     def ensures(annotation_level, lint_result, github_result):
-        want = flat(recs_of(lint_result), len(recs_of(lint_result)), 0)     # every violation record of every file, in order
-        return (len(github_result) == len(want)                             # one entry per violation record ...
-                and all(ann_carries(github_result[q], want[q][0], want[q][1]) for q in range(len(want))))   # ... carrying its positions
+        recs = recs_of(lint_result)
+        return (len(github_result) == nviol(recs, len(recs))          # one entry per violation record ...
+                # ... in order (file by file, violation by violation), each carrying its record's positions
+                and all(all(ann_carries(github_result[nviol(recs, r) + j], recs[r]["filepath"], recs[r]["violations"][j])
+                            for j in range(len(recs[r]["violations"])))
+                        for r in range(len(recs))))
 
     def inv_1(result, github_result, _i, _iter):
-        return (_iter == recs_of(result) and len(github_result) == len(flat(_iter, _i, 0))
-                and all(ann_carries(github_result[q], flat(_iter, _i, 0)[q][0], flat(_iter, _i, 0)[q][1])
-                        for q in range(len(github_result))))
+        recs = recs_of(result)
+        return (_iter == recs and len(github_result) == nviol(recs, _i)
+                and all(0 <= nviol(recs, r) and nviol(recs, r) + len(recs[r]["violations"]) <= nviol(recs, _i) for r in range(0, _i))
+                and all(all(ann_carries(github_result[nviol(recs, r) + j], recs[r]["filepath"], recs[r]["violations"][j])
+                            for j in range(len(recs[r]["violations"])))
+                        for r in range(0, _i)))
 
     def inv_2(result, github_result, record, filepath, _i1, _i):
         recs = recs_of(result)
         return (0 <= _i1 < len(recs) and record == recs[_i1] and filepath == record["filepath"]
-                and len(github_result) == len(flat(recs, _i1, _i))
-                and all(ann_carries(github_result[q], flat(recs, _i1, _i)[q][0], flat(recs, _i1, _i)[q][1])
-                        for q in range(len(github_result))))
+                and 0 <= nviol(recs, _i1) and len(github_result) == nviol(recs, _i1) + _i
+                and all(0 <= nviol(recs, r) and nviol(recs, r) + len(recs[r]["violations"]) <= nviol(recs, _i1) for r in range(0, _i1))
+                and all(all(ann_carries(github_result[nviol(recs, r) + j], recs[r]["filepath"], recs[r]["violations"][j])
+                            for j in range(len(recs[r]["violations"])))
+                        for r in range(0, _i1))
+                and all(ann_carries(github_result[nviol(recs, _i1) + j], filepath, recs[_i1]["violations"][j])
+                        for j in range(0, _i)))
+
+
+# ------------------------------------------------------------------ bounded stand-in: every --format of the real command
+from .c23_bounded import cli_formats  # noqa: E402
+
+BOUNDED = [cli_formats]
